@@ -60,11 +60,18 @@ func progSnippet(r *proto.Rand, n int) snippet {
 		{"pointers", "", "p# := new(int)\n*p# = h.Input()\nq# := p#\n*q# += KK\nprintln(*p#)\n"},
 		{"natives", "", "println(h.Nat0(h.Input()), h.Nat1(KK), h.Nat2(h.Nat1(h.Input())), h.Triple(CC))\n"},
 		{"func-values", "func Twice#(f func(int) int, x int) int { return f(f(x)) }\n", "println(Twice#(func(a int) int { return a*2 + h.Input() }, KK), Twice#(h.Triple, CC))\n"},
+		{"go-native-fan-in", "", "c# := make(chan int)\nfor i := 1; i <= CC+2; i++ { go h.Send(c#, i*KK+h.Input()) }\ns# := 0\nfor i := 1; i <= CC+2; i++ { s# += <-c# }\nprintln(\"gs#\", s#)\n"},
+		{"go-native-then-sync-same", "", "b# := make(chan int, 8)\ngo h.Send(b#, 1+h.Input())\nh.Send(b#, KK)\ngo h.SendMul(b#, CC, h.Input())\nh.SendMul(b#, 3, KK)\nt# := 0\nfor i := 0; i < 4; i++ { t# += <-b# }\nprintln(\"gt#\", t#)\n"},
+		{"go-native-variadic-env", "", "e# := make(chan int)\nfor i := 0; i < CC; i++ { go h.RecTag(e#, WW, i, h.Input(), KK); go h.SendSum(e#, i, h.Input()) }\nu# := 0\nfor i := 0; i < 2*CC; i++ { u# += <-e# }\nprintln(\"gv#\", u#)\n"},
+		{"go-native-recd", "", "d# := make(chan int)\nfor i := 0; i < CC; i++ { go h.Recd(d#, i, KK+h.Input()) }\nfor i := 0; i < CC; i++ { <-d# }\n"},
+		{"go-native-strings", "", "cs# := make(chan string)\ngo h.SendS(cs#, WW, 2)\ngo h.SendS(cs#, h.Itoa(h.Input()), CC)\nx#, y# := <-cs#, <-cs#\nif x# > y# { x#, y# = y#, x# }\nprintln(\"gss#\", x#, y#)\n"},
+		{"defer-native", "func D#(c chan int) {\n\tdefer h.Send(c, KK)\n\tdefer h.SendMul(c, h.Input(), CC)\n\th.Send(c, 1)\n}\n", "dc# := make(chan int, 4)\nD#(dc#)\nprintln(\"dn#\", <-dc#, <-dc#, <-dc#)\n"},
+		{"go-fast-path-native", "", "go h.Slen(WW)\ngo h.Repeat(WW, CC)\nprintln(\"gf#\", h.Slen(WW))\n"},
 		{"goroutine", "", "ch# := make(chan int)\ngo func(d int) { ch# <- d * KK }(h.Input())\nprintln(\"g#\", <-ch#)\n"},
 		{"select", "", "sa# := make(chan int, 1)\nsa# <- h.Input()\nselect {\ncase v := <-sa#:\n\tprintln(\"sel\", v+KK)\ndefault:\n\tprintln(\"none\")\n}\n"},
 	}
 	t := tpls[r.Intn(len(tpls))]
-	return snippet{kind: t.kind, decls: rep(t.decls), stmts: rep(t.stmts), goStmt: t.kind == "goroutine"}
+	return snippet{kind: t.kind, decls: rep(t.decls), stmts: rep(t.stmts), goStmt: t.kind == "goroutine" || strings.HasPrefix(t.kind, "go-")}
 }
 
 // endings: how a generated program ends (normal, unrecovered panic, runtime error).
@@ -120,6 +127,9 @@ func tplSnippet(r *proto.Rand, n int) snippet {
 		{"slice", "{% sl# := []int{KK, v} %}{% sl# = append(sl#, v*2) %}{{ len(sl#) }} {{ sl#[2] }}{% for _, e := range sl# %}{{ e }},{% end %}\n"},
 		{"go-block", "{%%\n  y# := 0\n  for i := 0; i < CC; i++ { y# += i * v }\n%%}{{ y# }}\n"},
 		{"text", "plain text KK &amp; more\n"},
+		{"go-native-recd", "{% d# := make(chan int) %}{% go recd(d#, CC, v) %}{% go recd(d#, 1, v+KK) %}{% _ = <-d# %}{% _ = <-d# %}\n"},
+		{"go-native-send", "{% c# := make(chan int, 4) %}{% go send(c#, v) %}{% send(c#, KK) %}{% go sendSum(c#, v, CC, 1) %}{% t# := <-c# %}{% t# = t# + <-c# %}{% t# = t# + <-c# %}{{ t# }}\n"},
+		{"go-native-loop", "{% e# := make(chan int) %}{% for i := 0; i < CC; i++ %}{% go recTag(e#, s, i, v) %}{% end %}{% for i := 0; i < CC; i++ %}{% _ = <-e# %}{% end %}\n"},
 		{"emit", "{% emit(\"t#\", v, s) %}\n"},
 		{"items-write", "{% if len(items) > 0 %}{% items[0] = items[0] + KK %}{{ items[0] }}{% end %}\n"},
 		{"string-ops", "{% st# := s + itoa(v) %}{{ st# }} {{ len(st#) }} {% if s contains \"a\" %}has-a{% end %}\n"},
@@ -172,9 +182,14 @@ func genToy(r *proto.Rand) []toyInstr {
 			p = append(p, toyInstr{'v', r.Intn(4), 0})
 		case x < 5:
 			p = append(p, toyInstr{'a', r.Intn(4), r.Intn(4)})
-		case x < 8 && natives < 8:
+		case x < 6 && natives < 8:
 			natives++
 			p = append(p, toyInstr{'n', r.Intn(3), r.Intn(4)})
+		case x < 8 && natives < 8:
+			natives++
+			p = append(p, toyInstr{'g', r.Intn(3), r.Intn(4)})
+		case x < 9 && r.Intn(2) == 0:
+			p = append(p, toyInstr{'j', 0, 0})
 		default:
 			p = append(p, toyInstr{'s', r.Intn(4), 0})
 		}
@@ -187,8 +202,10 @@ func toyProto(p []toyInstr) string {
 	var parts []string
 	for _, in := range p {
 		switch in.op {
-		case 'c', 'a', 'n':
+		case 'c', 'a', 'n', 'g':
 			parts = append(parts, fmt.Sprintf("%c:%d:%d", in.op, in.a, in.b))
+		case 'j':
+			parts = append(parts, "j")
 		default:
 			parts = append(parts, fmt.Sprintf("%c:%d", in.op, in.a))
 		}
@@ -198,7 +215,7 @@ func toyProto(p []toyInstr) string {
 
 func toyTemplate(p []toyInstr) string {
 	var b strings.Builder
-	b.WriteString("{% var r0, r1, r2, r3 int %}")
+	b.WriteString("{% var r0, r1, r2, r3, pn int %}{% dch := make(chan int, 64) %}")
 	for _, in := range p {
 		switch in.op {
 		case 'c':
@@ -211,7 +228,13 @@ func toyTemplate(p []toyInstr) string {
 			fmt.Fprintf(&b, "{%% r%d = nat%d(r%d) %%}", in.b, in.a, in.b)
 		case 's':
 			fmt.Fprintf(&b, "{{ r%d }};", in.a)
+		case 'g': // go native_f(r): the goroutine records 3*r+f for this run and signals on dch
+			fmt.Fprintf(&b, "{%% go recd(dch, %d, r%d) %%}{%% pn = pn + 1 %%}", in.a, in.b)
+		case 'j':
+			b.WriteString("{% if pn > 0 %}{% _ = <-dch %}{% pn = pn - 1 %}{% end %}")
 		}
 	}
+	// the run ends when every native goroutine it started has recorded
+	b.WriteString("{% for pn > 0 %}{% _ = <-dch %}{% pn = pn - 1 %}{% end %}")
 	return b.String()
 }
